@@ -17,7 +17,7 @@ STUBS = LOOP_STUBS
 ASSUMPTIONS = ["child script: `pre` ticks of sleep, then started(v)/raise/return/block; after started: `post` ticks then return/raise; on cancellation: re-raise / raise E from cleanup / shielded cleanup sleep then re-raise"]
 OUTSIDE = ["more than one start()-child plus one sibling", "uvloop, trio"]
 MUST_REACH = ["start:returned-value", "start:child-raised-before-started", "start:child-returned-before-started", "start:caller-cancelled-before-started",
-              "start:cleanup-raised-while-caller-cancelled", "start:second-started", "start:child-failed-after-started", "start:group-cancelled-before-started"]
+              "start:cleanup-raised-while-caller-cancelled", "start:second-started", "start:child-failed-after-started", "start:group-cancelled-before-started", "start:second-started-after-caller-cancelled"]
 
 
 class E(Exception):
@@ -34,6 +34,7 @@ def _leaves(eg):
 
 def scn(sym, cov, beh, cleanup, who, eager=False, native=False, return_handle=False, twice=False, T=2, J=2, sibling=False):
     """beh: 0 started then return | 1 raise before started | 2 return w/o started | 3 started then raise | 4 block forever before started
+         | 5 shielded start-up (survives cancellation), then started, then return
     cleanup (on cancellation): 0 re-raise | 1 raise E | 2 shielded sleep(1) then re-raise
     who: which scope is cancelled at the symbolic instant: 'caller' | 'group' | 'none'"""
     import anyio
@@ -54,7 +55,12 @@ def scn(sym, cov, beh, cleanup, who, eager=False, native=False, return_handle=Fa
     async def child(*, task_status=TASK_STATUS_IGNORED):
         try:
             try:
-                await anyio.sleep(pre)
+                if beh == 5:
+                    # a start-up that must not be interrupted: the child survives the caller's cancellation
+                    with CancelScope(shield=True):
+                        await anyio.sleep(pre)
+                else:
+                    await anyio.sleep(pre)
                 if beh == 1:
                     e = E("early")
                     raised.append(e)
@@ -216,7 +222,7 @@ def scn(sym, cov, beh, cleanup, who, eager=False, native=False, return_handle=Fa
         cov.hit("start:cleanup-raised-while-caller-cancelled", who == "caller" and any(str(e) == "cleanup" for e in raised))
     if who == "none":
         chk(not out.get("start_cancelled"), "start-cancelled-without-cancel")
-        if beh in (0, 3):
+        if beh in (0, 3, 5):
             chk("start" in out, "start-did-not-return-value", out.keys())
         if beh == 4:
             raise Violation("liveness:should-have-deadlocked")
@@ -226,6 +232,10 @@ def scn(sym, cov, beh, cleanup, who, eager=False, native=False, return_handle=Fa
         caller_cancelled_before = fired is not None and who in ("caller", "group") and not fired[2] and "start" not in out
         if not caller_cancelled_before:
             chk(out["second_started"] == "RuntimeError", "second-started-accepted")
+        elif fired is not None and fired[0] < st.get("started_at", (0, 0))[0]:
+            # the caller had been cancelled (well) before the first started(): neither call is an error
+            chk(out["second_started"] == "accepted", "second-started-rejected-although-caller-was-cancelled")
+            cov.hit("start:second-started-after-caller-cancelled")
     cov.hit("start:child-failed-after-started", any(str(e) == "late" for e in raised))
     if "h_status" in out:
         chk(out["h_status"] in ("FINISHED", "FAILED", "CANCELLED"), "handle-not-final", out["h_status"])
@@ -245,6 +255,9 @@ def units(tier):
                     continue
                 us.append({"name": "beh=%d cleanup=%d who=%s" % (beh, cleanup, who), "fn": scn,
                            "params": {"beh": beh, "cleanup": cleanup, "who": who}, "budget_s": 90 if quick else 600})
+    for who in ("caller", "group", "none"):
+        us.append({"name": "twice beh=5 (shielded start-up) who=%s" % who, "fn": scn, "params": {"beh": 5, "cleanup": 0, "who": who, "twice": True}, "budget_s": 90})
+    us.append({"name": "beh=5 cleanup=1 who=caller", "fn": scn, "params": {"beh": 5, "cleanup": 1, "who": "caller"}, "budget_s": 90})
     for beh in (0, 3):
         us.append({"name": "twice beh=%d who=caller" % beh, "fn": scn, "params": {"beh": beh, "cleanup": 0, "who": "caller", "twice": True}, "budget_s": 90})
         us.append({"name": "twice beh=%d who=none" % beh, "fn": scn, "params": {"beh": beh, "cleanup": 0, "who": "none", "twice": True}, "budget_s": 90})
